@@ -79,7 +79,13 @@ impl KsCfg {
     }
 
     pub fn options(&self) -> KeyspaceCreateOptions {
-        let mut o = KeyspaceCreateOptions::default()
+        self.options_onto(KeyspaceCreateOptions::default())
+    }
+
+    /// The same option values set on top of `base` (e.g. a clone of another keyspace's doc-hidden
+    /// `config`, the way an application creates "a keyspace like that one").
+    pub fn options_onto(&self, base: KeyspaceCreateOptions) -> KeyspaceCreateOptions {
+        let mut o = base
             .max_memtable_size(self.memtable())
             .manual_journal_persist(self.manual_persist());
         if let Some(t) = self.kv_sep() {
@@ -90,6 +96,8 @@ impl KsCfg {
                     .staleness_threshold(0.5)
                     .age_cutoff(0.5),
             ));
+        } else {
+            o = o.with_kv_separation(None);
         }
         if self.fifo() {
             o = o.compaction_strategy(Arc::new(Fifo::new(u64::MAX, None)));
@@ -104,6 +112,8 @@ impl KsCfg {
             o = o.data_block_compression_policy(fjall::config::CompressionPolicy::all(
                 fjall::CompressionType::Lz4,
             ));
+        } else {
+            o = o.data_block_compression_policy(KeyspaceCreateOptions::default().data_block_compression_policy);
         }
         o
     }
